@@ -106,7 +106,8 @@ def _start(rnd):
 
 def _stim(rnd, tier):
     start = _start(rnd)                      # UTC
-    kind = rnd.choice(['day', 'day', 'race', 'race', 'startrace', 'jump', 'jump', 'empty', 'cascade'])
+    kind = rnd.choice(['day', 'day', 'race', 'race', 'startrace', 'jump', 'jump', 'empty', 'cascade',
+                       'sametod', 'close'])
     nb = rnd.randint(1, 4)
     blocks, actions = [], []
     horizon = rnd.choice([3, 8, 26, 50]) * 3600
@@ -130,6 +131,43 @@ def _stim(rnd, tier):
             blocks[0]['cascade'] = 2
             blocks.append({'kind': 'td', 'utc': utc1, 'cfg': _rand_td(rnd, start, pin)})
             nb = max(nb, 2)
+    if kind == 'sametod':
+        # a TimeSpan whose end-points share the time of day (the cron keeps ONE registration per
+        # block and time of day): a past start and a coming stop, or two ranges on different days
+        utc = rnd.random() < 0.5
+        shift = 0 if utc else TZ
+        tt = start + dt.timedelta(seconds=shift + rnd.choice([30, 600, 4000]))
+        days = rnd.choice([1, 1, 2, 7])
+        if rnd.random() < 0.5:
+            span = [[_t7(tt - dt.timedelta(days=days)), _t7(tt)]]
+        else:
+            span = [[_t7(tt - dt.timedelta(days=days)), _t7(tt - dt.timedelta(days=days) + dt.timedelta(seconds=50))],
+                    [_t7(tt), _t7(tt + dt.timedelta(seconds=rnd.choice([20, 900])))]]
+        blocks.append({'kind': 'ts', 'utc': utc, 'cfg': {'span': span}})
+        horizon = max(horizon, 7200)
+    if kind == 'close':
+        # two boundaries of two blocks 1 ms (or of one block 2 us) apart; servicing the first one
+        # takes longer than that (a slow synchronous output handler)
+        utc = rnd.random() < 0.5
+        shift = 0 if utc else TZ
+        tt = start + dt.timedelta(seconds=shift + rnd.choice([30, 600, 4000]))
+
+        def tod(d):
+            return [d.hour, d.minute, d.second, d.microsecond]
+        if rnd.random() < 0.6:
+            t2 = tt + dt.timedelta(milliseconds=1)
+            blocks.append({'kind': 'td', 'utc': utc, 'stall': 5, 'cfg': {
+                'ht': True, 'hd': False, 'hw': False, 'dates': [], 'weekdays': [],
+                'times': [[tod(tt), tod(tt + dt.timedelta(seconds=900))]]}})
+            blocks.append({'kind': 'td', 'utc': utc, 'cfg': {
+                'ht': True, 'hd': False, 'hw': False, 'dates': [], 'weekdays': [],
+                'times': [[tod(t2), tod(t2 + dt.timedelta(seconds=300))]]}})
+            nb = max(nb, 2)
+        else:
+            blocks.append({'kind': 'td', 'utc': utc, 'stall': rnd.choice([0, 5]), 'cfg': {
+                'ht': True, 'hd': False, 'hw': False, 'dates': [], 'weekdays': [],
+                'times': [[tod(tt), tod(tt + dt.timedelta(microseconds=2))]]}})
+        horizon = max(horizon, 7200)
     while len(blocks) < nb:
         utc = rnd.random() < 0.5
         if kind == 'empty':
@@ -236,12 +274,24 @@ def execute(stim):
             kw = {}
             if b.get('cascade'):
                 kw['on_output'] = edzed.Event(f"b{b['cascade']}", 'reconfig', efilter=edzed.not_from_undef)
+            if b.get('stall'):
+                kw['on_output'] = edzed.Event('stall', 'put', efilter=edzed.not_from_undef)
             return edzed.TimeDate(f'b{i}', utc=b['utc'], **_td_args(c), **kw)
         return edzed.TimeSpan(f'b{i}', utc=b['utc'], span=c['span'])
 
     def factory(loop, clock):
         async def main():
             circuit = edzed.get_circuit()
+            ms = max([b.get('stall', 0) for b in stim['blocks']])
+            if ms:
+                class Stall(edzed.SBlock):
+                    """a slow synchronous consumer of output events"""
+                    def init_regular(self):
+                        self.set_output(0)
+
+                    def _event_put(self, **_data):
+                        loop.advance(ms / 1000)
+                Stall('stall')
             blks = [mk(i, b) for i, b in enumerate(stim['blocks'], 1)]
             edzed.Not('keepalive').connect(blks[0])
             t0 = loop.time()
